@@ -1405,6 +1405,8 @@ class Console:
         if self.no_color and color_system:
             buffer = Segment.remove_color(buffer)
         for text, style, is_control in buffer:
+            if not_terminal and is_control:
+                continue
             if style:
                 append(
                     style.render(
@@ -1413,7 +1415,7 @@ class Console:
                         legacy_windows=legacy_windows,
                     )
                 )
-            elif not (not_terminal and is_control):
+            else:
                 append(text)
 
         rendered = "".join(output)
